@@ -328,10 +328,11 @@ def setSpace (st : IState) (stroking : Bool) (n : Nat) : IState :=
 
 /-- `PDFPageInterpreter._initial_color` (ISO 32000-1 Table 74, operator CS). -/
 def initialColour (cs : CSpace) : Option Colour :=
-  if cs.name == "Pattern" || cs.n < 1 then none
-  else if cs.name == "DeviceCMYK" then some (.comps [0, 0, 0, 1])
+  -- the constants are regenerated from pdfinterp.py (`initNoneFamily` … `initOneFamilies`)
+  if cs.name == initNoneFamily || cs.n < 1 || cs.n > initMaxComponents then none
+  else if cs.name == initCmykFamily then some (.comps initCmyk)
   else
-    let v : Rat := if cs.name == "Separation" || cs.name == "DeviceN" then 1 else 0
+    let v : Rat := if initOneFamilies.contains cs.name then 1 else 0
     some (.comps (List.replicate cs.n v))
 
 def setColourOpt (st : IState) (stroking : Bool) (c : Option Colour) : IState :=
